@@ -1039,6 +1039,20 @@ func (m *metaRun) observe(st metaStep) {
 		if !eqInts(got, expIDs) {
 			m.bad(classifyInts("obs/listbundles", expIDs, got), expIDs, got, l.Repo)
 		}
+		// the minimal listing (ids only; the one squash uses) lists the same bundles
+		if mds, err := core.ListBundles(l.Repo, stores, append(e.listOpts(), core.WithMinimalBundle(true))...); err != nil {
+			m.bad("obs/listbundles-minimal-error", "ok", err.Error(), l.Repo)
+		} else {
+			var mgot []int
+			for _, bd := range mds {
+				mgot = append(mgot, e.rev[bd.ID])
+			}
+			sort.Ints(mgot)
+			sexp := append([]int{}, expIDs...)
+			if !eqInts(mgot, sexp) {
+				m.bad(classifyInts("obs/listbundles-minimal", sexp, mgot), sexp, mgot, l.Repo)
+			}
+		}
 		// every listed bundle can be read: entries through the API
 		if m.deep {
 			for _, bd := range bds {
